@@ -480,6 +480,9 @@ def run(ctx, res):
         else:
             res.mismatch("diagnostics.smallest_angle", "random vectors", want, got)
     check_series(res)
+    # representation- and history-robustness of the public functions (harness/apirobust.py)
+    from .. import apirobust_cases as _AC
+    _AC.c12(res, np.random.default_rng(ctx["seed"] + 4242), ctx)
 
 
 def replay(data):
